@@ -426,8 +426,14 @@ def restart_fixed_point(cfg1, d):
     size = cfg1["current"]["size"]
 
     def write(cfg):
-        stub = types.SimpleNamespace(config=cfg, live_paths=lambda: list(range(size)), locked=[],
-                                     _offset=1, rgen=np.random.default_rng(0), traj_data={})
+        # a bare REPEX_state (no __init__) so that its properties (cstep, ...) work on the stub
+        stub = REPEX_state.__new__(REPEX_state)
+        stub.config = cfg
+        stub.live_paths = lambda: list(range(size))
+        stub.locked = []
+        stub._offset = 1
+        stub.rgen = np.random.default_rng(0)
+        stub.traj_data = {}
         REPEX_state.write_toml(stub)
 
     load_dir = cfg1["simulation"].get("load_dir", "trajs")
